@@ -17,6 +17,13 @@ CLAIMED = {
  'C11': ('exploration', 'stateless systematic enumeration of pipeline-shaped operation histories on the real model + invariant/oracle at every stage hand-off',
          'All choice vectors of the stage-operation generator within a small scope (exhaustive flag in evidence), random vectors on scopes to 200 nodes, and all small trees x status assignments; structure, CheckConsistency, dedupe (one node per URL, no URL lost) and completion iff nothing pending are asserted after every step.',
          'The operation generator mirrors which model calls the stages make in the pinned code; exhaustive only within the stated scope.', '4/C11'),
+
+ 'C12': ('exploration', 'linearizability checking (porcupine) of client-boundary histories of the real reactor + quiescent token/tracked/delivery invariants; race-detector builds for a quarter of the children',
+         'Thousands of short concurrent histories (producers, workers, consumer, freeze/stop controller, hook-point schedule perturbation) are recorded at the API boundary and checked against a strict sequential model; token accounting, capacity and delivery conservation are asserted at quiescence.',
+         'Schedules are sampled, not enumerated; clients follow the pipeline discipline (only a held seed is fed back / finished) plus deliberate unknown ids and repeated finishes.', '4/C12'),
+ 'C17': ('exploration', 'linearizability checking (porcupine) of concurrent histories on the real stats primitives + exact quiescent totals after bulk bursts; race detector; hook-point perturbation inside the two-word mean',
+         'Histories from 8-32 goroutines on counter / rate total / mean / per-key bucket checked against sequential models, bulk bursts with exact totals, half of the children under the race detector (a race report in the stats primitives is a violation).',
+         'Unit level only so far (pipeline-level counter exactness is planned with the end-to-end runs); mid-burst reads of the mean are unconstrained.', '4/C17'),
 }
 NOT_BUILT = 'check not built yet in this session (planned, see DESIGN.md section 4)'
 
